@@ -59,7 +59,23 @@ Fixed == {
   [name |-> "get_assign_wrong", bad |-> <<"flt: str = get iopt" \o M>>, good |-> <<"flt: int = get iopt">>],
   [name |-> "method_arg", bad |-> <<"bx = Box()", "flt = bx.add(\"s\")" \o M>>, good |-> <<"bx = Box()", "flt = bx.add(2)">>],
   [name |-> "ctor_arg", bad |-> <<"flt = Pt(\"s\")" \o M>>, good |-> <<"flt = Pt(2)">>],
-  [name |-> "assert_non_bool", bad |-> <<"assert 5" \o M>>, good |-> <<"assert true">>] }
+  [name |-> "assert_non_bool", bad |-> <<"assert 5" \o M>>, good |-> <<"assert true">>],
+  \* an atom takes one prefix operator: `typeof -5` falls back to reading `typeof` as a (never declared) name
+  [name |-> "prefix_word", bad |-> <<"print typeof -5" \o M>>, good |-> <<"tyx = typeof 5">>],
+  [name |-> "index_with_optional", bad |-> <<"flt = ilist[iopt]" \o M>>, good |-> <<"k0 = 0", "flt = ilist[k0]">>],
+  [name |-> "index_with_index_of", bad |-> <<"flt = ilist[ilist.index_of(2)]" \o M>>, good |-> <<"flt = ilist[get ilist.index_of(2)]">>],
+  \* function types that differ only in the optionality of the result
+  [name |-> "fn_arg_returns_optional",
+   bad |-> <<"taker = fn(f: fn() -> int) -> int { return f() }", "giver = fn() -> int? { return nil }", "flt = taker(giver)" \o M>>,
+   good |-> <<"taker = fn(f: fn() -> int) -> int { return f() }", "giver = fn() -> int { return 3 }", "flt = taker(giver)">>],
+  [name |-> "fn_decl_returns_optional",
+   bad |-> <<"giver = fn() -> int? { return nil }", "flt: fn() -> int = giver" \o M>>,
+   good |-> <<"giver = fn() -> int { return 3 }", "flt: fn() -> int = giver">>],
+  \* `modify` (typed and untyped) of a captured variable with a value of another type
+  [name |-> "modify_typed_mismatch", bad |-> <<"tot = 10", "clo = fn() { modify tot: str = \"ten\" }" \o M, "clo()">>,
+                                     good |-> <<"tot = 10", "clo = fn() { modify tot: int = 11 }", "clo()">>],
+  [name |-> "modify_mismatch", bad |-> <<"tot = 10", "clo = fn() { modify tot = \"ten\" }" \o M, "clo()">>,
+                               good |-> <<"tot = 10", "clo = fn() { modify tot = 11 }", "clo()">>] }
 OpCases == {[kind |-> "op", op |-> o, l |-> l, r |-> r, ctx |-> c] :
               o \in {"-", "+", "&&", "<"}, l \in Types \ {"int?", "str?"}, r \in Types \ {"int?", "str?"}, c \in {"module", "fn"}}
 
